@@ -50,7 +50,14 @@ Definition lalloc (s : bytes) : option N :=
     else None
   end.
 
-Definition alloc_ok (s : bytes) : Prop := forall n, lalloc s = Some n -> n <= N.of_nat (length s).
+(* a well-formed length prefix at the head of [s] is followed by that many bytes *)
+Definition alloc_ok (s : bytes) : Prop :=
+  forall n, lalloc s = Some n -> exists s', lnext s = Some s' /\ n + N.of_nat (length s') <= N.of_nat (length s).
+
+Definition list_sum (l : list N) : N := fold_right N.add 0 l.
+
+Lemma list_sum_app a b : list_sum (a ++ b) = list_sum a + list_sum b.
+Proof. induction a as [|x a IH]; cbn [app list_sum fold_right]; [reflexivity|]. fold (list_sum (a ++ b)). fold (list_sum a). lia. Qed.
 
 Definition scalar_start (c : N) : Prop := c = ch_i \/ is_digit c = true.
 
@@ -169,6 +176,22 @@ Proof.
         inversion H; subst. cbn. auto.
 Qed.
 
+(* a failing read that nevertheless requested memory: the declared length exceeds what is left *)
+Lemma tok_fail_alloc st st' : tok st = (st', Fail) -> s_log st' <> s_log st -> lnext (s_in st) = None.
+Proof.
+  unfold tok, lnext. destruct st as [inp lg mx]. cbn [s_in s_log s_max].
+  destruct inp as [|c rest]; intros H Hne; [reflexivity|].
+  destruct (c =? ch_i) eqn:Ei.
+  - destruct (split_at_byte ch_e rest) as [[ds r']|]; [|reflexivity].
+    destruct (parse_i64 ds); inversion H; subst; cbn in Hne; congruence.
+  - destruct (is_digit c) eqn:Ed.
+    + destruct (split_at_byte ch_colon rest) as [[ds r']|]; [|reflexivity].
+      destruct (parse_usize (c :: ds)) as [len|]; [|reflexivity].
+      destruct (len <=? N.of_nat (length r')) eqn:El; [inversion H | reflexivity].
+    + destruct (c =? ch_l); [inversion H|]. destruct (c =? ch_d); [inversion H|]. destruct (c =? ch_e); [inversion H|].
+      reflexivity.
+Qed.
+
 (* ------------------------------------------------------------------ *)
 (* the invariant                                                      *)
 
@@ -179,7 +202,8 @@ Section Safety.
 
   Definition Inv (st : st) : Prop :=
     lsafe MAXD 0 (s_in st) /\ N.of_nat (length (s_in st)) <= L /\
-    Forall (fun a => a <= L) (s_log st) /\ (s_max st <= BND)%nat.
+    Forall (fun a => a <= L) (s_log st) /\ list_sum (s_log st) + N.of_nat (length (s_in st)) <= L /\
+    (s_max st <= BND)%nat.
 
   Definition safe {A} (m : M A) : Prop := forall st st' r, Inv st -> m st = (st', r) -> Inv st'.
 
@@ -206,7 +230,7 @@ Section Safety.
 
   Lemma safe_enter k : (k <= BND)%nat -> safe (enter k).
   Proof.
-    intros Hk st st' r [H1 [H2 [H3 H4]]] H. inversion H; subst. unfold Inv. cbn [s_in s_log s_max].
+    intros Hk st st' r [H1 [H2 [H3 [H5 H4]]]] H. inversion H; subst. unfold Inv. cbn [s_in s_log s_max].
     repeat split; try assumption. lia.
   Qed.
 
@@ -229,19 +253,30 @@ Section Safety.
 
   Lemma safe_tok : safe tok.
   Proof.
-    intros st st' r [H1 [H2 [H3 H4]]] H. apply tok_spec in H as [Hm [Hl Hr]].
+    intros st st' r [H1 [H2 [H3 [H5 H4]]]] H. pose proof H as H0. apply tok_spec in H as [Hm [Hl Hr]].
+    pose proof (lsafe_alloc _ _ _ H1) as Ha.
     assert (Hlog : Forall (fun a => a <= L) (s_log st')).
-    { destruct Hl as [-> | [n [Ha ->]]]; [exact H3|]. apply Forall_app. split; [exact H3|].
-      constructor; [|constructor]. pose proof (lsafe_alloc _ _ _ H1 n Ha). lia. }
+    { destruct Hl as [-> | [n [Hn ->]]]; [exact H3|]. apply Forall_app. split; [exact H3|].
+      constructor; [|constructor]. destruct (Ha n Hn) as [s' [_ Hle]]. lia. }
     destruct r as [t| |].
     - destruct Hr as [Hn _]. unfold Inv. repeat split.
       + eapply lsafe_next; eassumption.
       + apply lnext_length in Hn. lia.
       + exact Hlog.
+      + destruct Hl as [-> | [n [Hal ->]]].
+        * apply lnext_length in Hn. lia.
+        * destruct (Ha n Hal) as [s' [Hs' Hle]]. rewrite Hn in Hs'. inversion Hs'; subst s'.
+          rewrite list_sum_app. cbn [list_sum fold_right]. lia.
       + lia.
-    - unfold Inv. rewrite Hr. repeat split; try assumption. lia.
+    - unfold Inv. rewrite Hr. repeat split; try assumption; [|lia].
+      destruct Hl as [-> | [n [Hal Hlg]]]; [exact H5|].
+      exfalso. destruct (Ha n Hal) as [s' [Hs' _]].
+      rewrite (tok_fail_alloc _ _ H0) in Hs'; [discriminate|].
+      rewrite Hlg. intros E. apply (f_equal (@length N)) in E. rewrite app_length in E. cbn in E. lia.
     - destruct Hr.
   Qed.
+
+
 
   (* ---------------------------------------------------------------- *)
   (* the generic value reader: the library's level follows the balance *)
@@ -299,7 +334,7 @@ Section Safety.
       + unfold bind, enter in H.
         set (st1 := mkSt (s_in st) (s_log st) (Nat.max (s_max st) (S d))) in *.
         assert (HI1 : Inv st1).
-        { destruct HI as [H1 [H2 [H3 H4]]]. unfold Inv, st1. cbn [s_in s_log s_max]. repeat split; try assumption.
+        { destruct HI as [H1 [H2 [H3 [H5 H4]]]]. unfold Inv, st1. cbn [s_in s_log s_max]. repeat split; try assumption.
           pose proof (lsafe_le _ _ _ Hpre). lia. }
         destruct (any_list fuel (S d) st1) as [s2 [l| |]] eqn:E.
         * destruct (IHl _ _ _ _ E HI1 Hpre) as [HI2 Hd2]. inversion H; subst. split; [exact HI2|].
@@ -309,7 +344,7 @@ Section Safety.
       + unfold bind, enter in H.
         set (st1 := mkSt (s_in st) (s_log st) (Nat.max (s_max st) (S d))) in *.
         assert (HI1 : Inv st1).
-        { destruct HI as [H1 [H2 [H3 H4]]]. unfold Inv, st1. cbn [s_in s_log s_max]. repeat split; try assumption.
+        { destruct HI as [H1 [H2 [H3 [H5 H4]]]]. unfold Inv, st1. cbn [s_in s_log s_max]. repeat split; try assumption.
           pose proof (lsafe_le _ _ _ Hpre). lia. }
         destruct (any_map fuel (S d) st1) as [s2 [l| |]] eqn:E.
         * destruct (IHm _ _ _ _ E HI1 Hpre) as [HI2 Hd2]. inversion H; subst. split; [exact HI2|].
@@ -757,7 +792,7 @@ Proof.
       * intros x Hx. cbn [app]. rewrite <- app_assoc. cbn [app].
         destruct (lnext_str c ds len (firstn (N.to_nat len) r') x Ei Edg Hds Ep Hlen) as [Hn Ha].
         eapply ls_other; [right; exact Edg | | exact Hn | lia | exact Hx].
-        intros n Hn'. rewrite Ha in Hn'. inversion Hn'; subst n.
+        intros n Hn'. rewrite Ha in Hn'. inversion Hn'; subst n. exists x. split; [exact Hn|].
         cbn [length]. rewrite !app_length. cbn [length]. rewrite app_length, Hlen. lia.
       * exact H.
     + destruct ((c =? ch_l) || (c =? ch_d)) eqn:Eo.
@@ -781,9 +816,10 @@ Qed.
 
 Theorem decode_safe b :
   Forall (fun a => a <= N.of_nat (length b)) (o_allocs (decode_instr b)) /\
+  list_sum (o_allocs (decode_instr b)) <= N.of_nat (length b) /\
   (o_depth (decode_instr b) <= max_depth + 2)%nat.
 Proof.
-  unfold decode_instr. destruct (precheck b) as [e|] eqn:E; [|cbn; split; [constructor | lia]].
+  unfold decode_instr. destruct (precheck b) as [e|] eqn:E; [|cbn; split; [constructor | split; lia]].
   unfold lib_decode, run_lib. set (b' := firstn e b).
   destruct (message (fuel_for (length b')) (init_st b')) as [s r] eqn:Er.
   assert (HI : Inv (N.of_nat (length b)) (init_st b')).
@@ -791,13 +827,17 @@ Proof.
     - unfold b', MAXD. unfold precheck in E. eapply scan_lsafe; [| | exact E]; lia.
     - unfold b'. rewrite firstn_length. lia.
     - constructor.
+    - cbn. unfold b'. rewrite firstn_length. lia.
     - lia. }
-  pose proof (safe_message (N.of_nat (length b)) _ _ _ _ HI Er) as [_ [_ [Hlog Hmax]]].
-  cbn [o_allocs o_depth]. split; [exact Hlog | exact Hmax].
+  pose proof (safe_message (N.of_nat (length b)) _ _ _ _ HI Er) as [_ [_ [Hlog [Hsum Hmax]]]].
+  cbn [o_allocs o_depth]. split; [exact Hlog | split; [lia | exact Hmax]].
 Qed.
 
 Theorem decode_allocs_bounded b a : In a (o_allocs (decode_instr b)) -> a <= N.of_nat (length b).
 Proof. intros H. pose proof (proj1 (decode_safe b)) as Hf. rewrite Forall_forall in Hf. auto. Qed.
+
+Theorem decode_alloc_sum_bounded b : list_sum (o_allocs (decode_instr b)) <= N.of_nat (length b).
+Proof. apply decode_safe. Qed.
 
 Theorem decode_depth_bounded b : (o_depth (decode_instr b) <= max_depth + 2)%nat.
 Proof. apply decode_safe. Qed.
